@@ -59,20 +59,6 @@ pub struct Case {
     pub e: usize,
 }
 
-trait IdOf {
-    fn ident(&self) -> Option<u32>;
-}
-impl IdOf for Tracked {
-    fn ident(&self) -> Option<u32> {
-        Some(self.id_unchecked())
-    }
-}
-impl IdOf for TrackedZst {
-    fn ident(&self) -> Option<u32> {
-        None
-    }
-}
-
 fn arm(ids: &[Option<u32>], e: usize) {
     match ids.get(e).copied().flatten() {
         Some(id) => registry::panic_in_drop_of(id),
@@ -80,7 +66,7 @@ fn arm(ids: &[Option<u32>], e: usize) {
     }
 }
 
-fn exec_typed<T: Elem + IdOf + Clone + Default, N: ArrayLength>(case: &Case, acc: &mut Acc) -> Result<(), String> {
+fn exec_typed<T: Elem + Clone + Default, N: ArrayLength>(case: &Case, acc: &mut Acc) -> Result<(), String> {
     registry::reset();
     let n = N::USIZE;
     let arr: GenericArray<T, N> = GenericArray::generate(|i| T::mk(100 + i as u32));
